@@ -27,8 +27,19 @@ def _validate(a, size, p):
 
 
 class AdversarialChooser:
+    """Stands in for numpy.random.Generator.  Only choice() is adversarial; every other method (multinomial,
+    permutation, integers, random ...) is answered by a genuine numpy generator seeded from the plan, so code that
+    draws its samples differently still runs - on real numpy sampling - instead of tripping over the stub."""
+
     def __init__(self, policy, seed, stats):
         self.policy, self.r, self.stats = policy, random.Random(seed), stats
+        self._real = np.random.Generator(np.random.PCG64(int(seed) % (2 ** 63)))
+
+    def __getattr__(self, name):
+        if name.startswith("__"):
+            raise AttributeError(name)
+        self.stats["rng-delegated-" + name] += 1
+        return getattr(self._real, name)
 
     def _indices(self, n, p, size):
         support = [i for i in range(n) if p is None or p[i] > 0]
@@ -89,6 +100,10 @@ class SimRNG:
     def begin_step(self, rs):
         self.step_seed = int(rs)
         self.counter = 0
+        # the legacy global generators too: code that reaches for numpy.random.<anything> or the random module
+        # must still be a pure function of the plan (the simulator owns every source of randomness)
+        np.random.seed(self.step_seed % (2 ** 32))
+        random.seed(self.step_seed)
 
     def _next_seed(self):
         self.counter += 1
